@@ -6,7 +6,7 @@ import ast
 from .srcmodel import own_nodes, AnalysisError
 from .astutil import dotted, get_arg, norm, enclosing, defs_of, assignments
 from .resolve import MEMMAP, NDARRAY, FILE
-from .cfg import cfg_of, always_raises
+from .cfg import cfg_of, always_raises, handler_names
 
 VIEW_ATTRS = {'T', 'real', 'imag', 'base', 'flat', '_mmap', 'mT'}
 SCALAR_ATTRS = {'dtype', 'shape', 'size', 'ndim', 'nbytes', 'itemsize', 'flags', 'strides',
@@ -374,7 +374,22 @@ def _may_raise_implicitly(g, nid):
     return False
 
 
-def leak_paths(func, acq_stmt, target_text, via=None):
+def _uncaught_base_exception(func, node):
+    """A suspension point (yield) can raise GeneratorExit / KeyboardInterrupt there: is there an enclosing try that
+    handles BaseException (bare except, BaseException, GeneratorExit) or has a finally?  Returns True when such an
+    exception would leave the function without passing any handler or finally block."""
+    for p, field in enclosing(func.node, node):
+        if isinstance(p, ast.Try) and field in ('body', 'orelse', 'handlers'):
+            if p.finalbody:
+                return False
+            if field == 'body' and any(h.type is None or handler_names(h) & {'BaseException', 'GeneratorExit'} for h in p.handlers):
+                return False
+        if isinstance(p, ast.With):
+            continue
+    return True
+
+
+def leak_paths(func, acq_stmt, target_text, via=None, release_nodes=None):
     """Release-on-all-exits for a resource acquired by `acq_stmt` into `target_text` (name or self.attr): returns a list
     of human-readable leak descriptions (empty = every way out of the function after the acquisition passes a release).
     Release = <alias>.close() (or <alias>.<via>.close() when `via` is given, `del <alias>`).  Tests `<alias> is not
@@ -390,6 +405,8 @@ def leak_paths(func, acq_stmt, target_text, via=None):
                 rel.add(g.node_for(n))
         if isinstance(n, ast.Delete) and any(dotted(x) in al for x in n.targets):
             rel.add(g.node_for(n))
+    if release_nodes is not None:
+        rel = set(release_nodes)
     a0 = g.node_for(acq_stmt)
     resets = {}
     for n in own_nodes(func.node):
@@ -443,6 +460,12 @@ def leak_paths(func, acq_stmt, target_text, via=None):
             succ = [(b, lab) for b, lab in succ if v is None or lab == v or
                     (lab == 'exc' and ((n, b) not in g.after_finally or v in g.after_finally[(n, b)]))]
         has_exc = any(lab == 'exc' for _, lab in succ)
+        st_ = g.astnode[n]
+        if g.kind[n] == 'stmt' and any(isinstance(x, (ast.Yield, ast.YieldFrom)) for x in ast.walk(st_)) and \
+                _uncaught_base_exception(func, st_):
+            leaks.append(f'GeneratorExit / KeyboardInterrupt raised at the yield (line {getattr(st_, "lineno", "?")}) is not caught by '
+                         f'any enclosing handler (`except Exception` does not catch it) and there is no finally: the generator is '
+                         f'closed without releasing it')
         if not has_exc and g.kind[n] not in ('raise', 'return') and _may_raise_implicitly(g, n):
             st = g.astnode[n]
             leaks.append(f'`{norm(st)[:50] if not isinstance(st, (ast.If, ast.For, ast.While, ast.With)) else type(st).__name__.lower()}` '
@@ -459,8 +482,43 @@ def pair_obligations(ctx, clause):
     ctx.info['opener'] = f'{opener.qualname} caches self.{mattr} / self.{fdattr}'
     tries = [n for n in own_nodes(opener.node) if isinstance(n, ast.Try) and n.finalbody]
     if not tries:
-        ctx.bad('R-PAIR', clause, opener, None, 'finally', 'the opener releases in a finally block',
-                detail='no try/finally: an exception in the body or generator close leaks map and fd')
+        # no finally block: decide the release on the CFG (every way out after the acquisition — normal, exceptional,
+        # generator close at the yield — passes the close of the file and of the map, and resets the cache)
+        facq = [n for n in own_nodes(opener.node) if isinstance(n, ast.Assign) and len(n.targets) == 1 and
+                isinstance(n.value, ast.Call) and dotted(n.value.func) in ('open', 'io.open')]
+        wacq = [n for n in own_nodes(opener.node) if isinstance(n, ast.With) and any(
+            isinstance(it.context_expr, ast.Call) and dotted(it.context_expr.func) in ('open', 'io.open') for it in n.items)]
+        macq = [n for n in own_nodes(opener.node) if isinstance(n, ast.Assign) and
+                any(dotted(x) == f'self.{mattr}' for x in n.targets) and isinstance(n.value, ast.Call) and
+                dotted(n.value.func) in ('np.memmap', 'numpy.memmap')]
+        regs = [n for n in own_nodes(opener.node) if isinstance(n, ast.Assign) and
+                any(dotted(x) == f'self.{mattr}' for x in n.targets) and
+                not (isinstance(n.value, ast.Constant) and n.value.value is None)]
+        why = []
+        for a_ in facq:
+            why += leak_paths(opener, a_, dotted(a_.targets[0]) or '?')
+        if not facq and not wacq:
+            why.append('no acquisition of the data file found')
+        for a_ in macq:
+            why += leak_paths(opener, a_, f'self.{mattr}', via='_mmap')
+        g = cfg_of(opener)
+        for a_ in regs:
+            resets_ = {g.node_for(n) for n in own_nodes(opener.node) if isinstance(n, ast.Assign) and
+                       any(dotted(x) == f'self.{mattr}' for x in n.targets) and isinstance(n.value, ast.Constant)
+                       and n.value.value is None}
+            lk = leak_paths(opener, a_, f'self.{mattr}', release_nodes=resets_)
+            why += [w.replace('releasing it', f'resetting self.{mattr}') for w in lk]
+        ctx.decide(not why, 'R-PAIR', clause, opener, None, 'finally', 'the opener releases map and file and resets its cache on '
+                   'every exit (decided on the CFG: there is no finally block)',
+                   detail=(why[0] if why else ''))
+        if why:
+            return
+        ctx.ok('R-PAIR', clause, opener, None, 'closes-mmap', f'every exit after a map registration passes the close of its mmap')
+        ctx.ok('R-PAIR', clause, opener, None, 'closes-fd', 'the data file object is closed on every exit')
+        for a in (mattr, fdattr):
+            if a:
+                ctx.ok('R-PAIR', clause, opener, None, f'resets::{a}', f'self.{a} is reset on every exit')
+        _other_opens(ctx, clause)
         return
     t = tries[0]
     fin = ast.Module(body=t.finalbody, type_ignores=[])
@@ -512,6 +570,10 @@ def pair_obligations(ctx, clause):
     bad = [n for n in ast.walk(fin) if isinstance(n, (ast.Return, ast.Yield, ast.YieldFrom))]
     ctx.decide(not bad, 'R-PAIR', clause, opener, bad[0] if bad else t, 'no-return-in-finally',
                'no return/yield inside the finally block', detail='return in finally swallows exceptions')
+    _other_opens(ctx, clause)
+
+
+def _other_opens(ctx, clause):
     # every other open( in the package
     n = 0
     for f in ctx.repo.all_funcs():
